@@ -24,8 +24,10 @@ RULE = ('cases = tables (all permutations for <=4 keys, seeded random '
         'characters included for the non-mutation clause; non-trivial = '
         'table with >=2 keys somewhere or a frame with >=1 argument; '
         'distinct = ordered digest of the input')
-ASSUMPTIONS = ['key sets that collide after the documented 128-character '
-               'truncation are excluded']
+ASSUMPTIONS = ['keys longer than 128 characters (also ones that collide '
+               'after the documented truncation) are included for the '
+               'determinism, order-independence and non-mutation clauses, '
+               'not for the ascending-order clause']
 
 
 def shards(tier, seed):
@@ -77,6 +79,16 @@ def cases(shard, rnd):
                        'v': {long1: gv.leaf(rnd), 'b': 1, long2: [1],
                              'a': {'M' * 200: bytearray(b'x')}},
                        'longkeys': True}
+            elif k < 0.78:
+                # keys that collide once truncated to 128 characters: the
+                # encoding must still not depend on insertion order
+                stem = gv.rstr_bytes(rnd, 128, 'ascii')
+                t = {stem + 'A': 1, stem + 'B': 2, 'mid': 0,
+                     stem + 'C' + 'x' * 40: [3]}
+                if rnd.random() < 0.5:
+                    t = {'outer': t, 'arr': [dict(t)]}
+                yield {'t': 'table', 'v': t, 'longkeys': True,
+                       'colliding': True}
             elif k < 0.85:
                 yield {'t': 'table', 'v': gv.wide_table(rnd, 40)}
             else:
@@ -202,6 +214,8 @@ def run_case(case, rec):
                 rec.count('nesting_3plus_permuted')
             if longkeys:
                 rec.count('longkey_tables_fingerprinted')
+            if case.get('colliding'):
+                rec.count('colliding_longkey_tables_permuted')
             rec.count('ok:' + t)
         elif t == 'method':
             spec = refspec.METHODS[case['index']]
@@ -268,6 +282,8 @@ def gates(m, tier):
         out.append('fewer than 100 tables encoded in >=2 distinct orders')
     if not m.counters.get('nesting_3plus_permuted'):
         out.append('no table nested >=3 deep was permuted')
+    if not m.counters.get('colliding_longkey_tables_permuted'):
+        out.append('no table with colliding truncated keys was permuted')
     if not m.counters.get('longkey_tables_fingerprinted'):
         out.append('truncation path (keys > 128 chars) never fingerprinted')
     if len(m.sets.get('classes', ())) != 64:
